@@ -18,11 +18,13 @@ use crate::simfs::{Fault, FaultMode, OpKind, PathClass, SimFs};
 use crate::{dbutil, watch};
 
 const HISTORIES: u64 = 4;
+const SINGLE_QUICK: u64 = 1600;
+const SINGLE_THOROUGH: u64 = 12000;
 
 pub fn plan(tier: &str) -> u64 {
     match tier {
-        "quick" => 1600,
-        _ => 12000,
+        "quick" => SINGLE_QUICK + 240,
+        _ => SINGLE_THOROUGH + 1800,
     }
 }
 
@@ -122,6 +124,9 @@ struct Script {
     short_writes: bool,
     /// after the run, replay its file-system calls against the file systems raindb ships
     replay_on_shipped_file_systems: bool,
+    /// arm the fault when the database itself reports that it enters a phase: (note, phase, k) =
+    /// at the k-th note of that name whose arguments match the phase (see `phase_matches`)
+    arm_on_note: Option<(&'static str, u64, u64)>,
 }
 
 #[derive(Clone)]
@@ -159,7 +164,7 @@ fn make_long_wal_script(seed: u64) -> Script {
     for _ in 0..20 {
         ops.push(ScriptOp::Get(rng.pick(&pool).clone()));
     }
-    Script { cfg, pool, ops, arm_at: Some(arm_at), short_writes: false, replay_on_shipped_file_systems: false }
+    Script { cfg, pool, ops, arm_at: Some(arm_at), short_writes: false, replay_on_shipped_file_systems: false, arm_on_note: None }
 }
 
 /// A compaction over cold tables: four sessions without log reuse each leave one level-0 table
@@ -195,7 +200,7 @@ fn make_cold_compaction_script(seed: u64) -> Script {
     for k in &pool {
         ops.push(ScriptOp::Get(k.clone()));
     }
-    Script { cfg, pool, ops, arm_at: Some(arm_at), short_writes: false, replay_on_shipped_file_systems: false }
+    Script { cfg, pool, ops, arm_at: Some(arm_at), short_writes: false, replay_on_shipped_file_systems: false, arm_on_note: None }
 }
 
 fn make_script(history: u64, seed: u64, n_ops: usize) -> Script {
@@ -243,7 +248,80 @@ fn make_script(history: u64, seed: u64, n_ops: usize) -> Script {
             ops.push(ScriptOp::Reopen(Config { reuse: rng.chance(0.5), ..cfg }));
         }
     }
-    Script { cfg, pool, ops, arm_at: None, short_writes: false, replay_on_shipped_file_systems: false }
+    Script { cfg, pool, ops, arm_at: None, short_writes: false, replay_on_shipped_file_systems: false, arm_on_note: None }
+}
+
+/// Phases a fault can be tied to. 0: an automatic compaction that is a trivial move; 1: a manual
+/// compaction; 2: an automatic merging compaction; 3: a memtable rotation; 4: a garbage collection
+/// with something to delete; 5: an immutable memtable has just been dropped (its flush is installed).
+const PHASES: [(&str, &str); 6] = [
+    ("compaction.pick", "trivial-move"),
+    ("compaction.pick", "manual-compaction"),
+    ("compaction.pick", "automatic-merging-compaction"),
+    ("mem.rotate", "memtable-rotation"),
+    ("gc.plan", "garbage-collection"),
+    ("imm.drop", "flush-installed"),
+];
+
+fn phase_matches(phase: u64, args: &[u64]) -> bool {
+    let a = |i: usize| args.get(i).copied().unwrap_or(0);
+    match phase {
+        0 => a(4) == 1,
+        1 => a(3) == 1,
+        2 => a(3) == 0 && a(4) == 0,
+        4 => a(0) > 0,
+        _ => true,
+    }
+}
+
+/// The calls worth failing right after a phase has been announced.
+fn phase_calls(phase: u64) -> Vec<(OpKind, PathClass)> {
+    use OpKind::*;
+    match phase {
+        0 => vec![(Write, PathClass::Manifest), (Flush, PathClass::Manifest)],
+        1 | 2 => vec![(CreateTrunc, PathClass::Table), (Write, PathClass::Table), (Flush, PathClass::Table), (OpenRead, PathClass::Table),
+            (Read, PathClass::Table), (Write, PathClass::Manifest), (Flush, PathClass::Manifest), (Remove, PathClass::Table)],
+        3 => vec![(Write, PathClass::Wal), (Flush, PathClass::Wal), (CreateTrunc, PathClass::Table), (Write, PathClass::Table), (Write, PathClass::Manifest),
+            (Flush, PathClass::Manifest), (Remove, PathClass::Wal)],
+        4 => vec![(Remove, PathClass::Table), (Remove, PathClass::Wal), (Write, PathClass::Wal)],
+        _ => vec![(Remove, PathClass::Wal), (List, PathClass::Dir), (Write, PathClass::Wal), (CreateTrunc, PathClass::Wal)],
+    }
+}
+
+/// A fault tied to a phase of the background work instead of to a call count: the database's own
+/// notes (compaction picked - trivial move, manual, merging -, memtable rotated, garbage collection
+/// planned, immutable memtable dropped) arm it, so the failing call is the n-th call of its kind
+/// *inside* that phase - positions the occurrence sampling of the single-fault runs reaches only by
+/// luck (a manifest write of a trivial move is one manifest write in dozens).
+fn case_phase_fault(out: &mut CaseOut, tier: &str, seed: u64, j: u64) {
+    let mut rng = Rng::new(mix(&[seed, j], "c08-phase-fault"));
+    let phase = [0u64, 1, 2, 3, 4, 5, 0, 2][(j % 8) as usize];
+    let (note, phase_name) = PHASES[phase as usize];
+    let mut script = make_script(rng.below(HISTORIES), seed, if tier == "quick" { 150 } else { 220 });
+    let calls = phase_calls(phase);
+    let (kind, class) = *rng.pick(&calls);
+    let k = rng.range(1, 3);
+    let nth = rng.below(2);
+    let mode = *rng.pick(&[FaultMode::Transient, FaultMode::Transient, FaultMode::StickySame, FaultMode::StickyAll]);
+    script.arm_on_note = Some((note, phase, k));
+    script.short_writes = kind == OpKind::Write && rng.chance(0.5);
+    let fault = Fault { kind, class, nth, mode, after_effect: false };
+    let ctx = json!({"family": "fault-tied-to-a-phase", "phase": phase_name, "armed_at_occurrence_of_phase": k, "config": script.cfg.describe(),
+        "failing_write_is_short": script.short_writes, "fault": {"call": kind.name(), "on": class.name(), "occurrence_after_phase_began": nth, "mode": mode.name()}});
+    let result = run_script(out, &script, Some(fault), &ctx);
+    let fired = out.obs.get("faults_fired").copied().unwrap_or(0) > 0;
+    out.add("phase_fault_runs", 1);
+    if let Some(r) = result {
+        if fired {
+            out.add(&format!("phase_fault_fired.{phase_name}.{}.{}", kind.name(), class.name()), 1);
+            if r.ops_after_fault > 0 {
+                out.nontrivial(format!("phase/{phase_name}/{}/{}/{}", kind.name(), class.name(), mode.name()));
+            }
+        } else {
+            out.add("phase_fault_not_reached", 1);
+        }
+    }
+    out.sample = Some(json!({"family": "fault-tied-to-a-phase", "ctx": ctx, "fault_fired": fired}));
 }
 
 struct RunResult {
@@ -259,8 +337,19 @@ fn run_script(out: &mut CaseOut, script: &Script, fault: Option<Fault>, ctx: &se
     let fs = SimFs::from_image(&dbutil::root_image());
     fs.set_short_writes(script.short_writes);
     fs.record_journal(fault.is_some() && script.replay_on_shipped_file_systems);
-    if script.arm_at.is_none() {
+    if script.arm_at.is_none() && script.arm_on_note.is_none() {
         fs.arm_fault(fault.clone());
+    }
+    let phase_seen = std::sync::Arc::new(std::sync::atomic::AtomicU64::new(0));
+    if let (Some((note, phase, k)), Some(f)) = (script.arm_on_note, fault.clone()) {
+        // the note is emitted by the thread that is about to do the phase's file-system calls (under
+        // the database mutex), so 'the n-th such call after the note' is a position inside that phase
+        let (fs2, seen) = (fs.clone(), std::sync::Arc::clone(&phase_seen));
+        d.on_note(note, std::sync::Arc::new(move |args: &[u64]| {
+            if phase_matches(phase, args) && seen.fetch_add(1, std::sync::atomic::Ordering::SeqCst) + 1 == k {
+                fs2.arm_fault(Some(f.clone()));
+            }
+        }));
     }
     let mut counts_in_window: Option<BTreeMap<(OpKind, PathClass), u64>> = None;
     let mut sess = Session::new(fs.clone(), script.cfg);
@@ -947,6 +1036,12 @@ const GROUP_EVERY: u64 = 20;
 
 pub fn run_case(tier: &str, seed: u64, idx: u64) -> CaseOut {
     let mut out = CaseOut::new();
+    // the cases behind the single-fault enumeration tie the fault to a phase of the background work
+    let singles = if tier == "quick" { SINGLE_QUICK } else { SINGLE_THOROUGH };
+    if idx >= singles {
+        case_phase_fault(&mut out, tier, seed, idx - singles);
+        return out;
+    }
     // every 20th case is a group commit under a failing write-ahead log
     if idx % GROUP_EVERY == GROUP_EVERY - 1 {
         let j = idx / GROUP_EVERY;
